@@ -238,9 +238,11 @@ pub fn run(ctx: &mut Ctx, o: &AttackOpts) {
                 m2.discs.shuffle(&mut r);
                 let keep = r.gen_range(0..=m2.discs.len());
                 m2.discs.truncate(keep);
-                if r.gen_bool(0.25) && !m2.discs.is_empty() {
+                if r.gen_bool(0.35) && !m2.discs.is_empty() {
+                    // a repeated disclosure, anywhere in the list (what follows it must not be affected)
                     let d = m2.discs[r.gen_range(0..m2.discs.len())].clone();
-                    m2.discs.push(d);
+                    let at = r.gen_range(0..=m2.discs.len());
+                    m2.discs.insert(at, d);
                 }
                 go(ctx, &m2, false);
             }
